@@ -272,6 +272,7 @@ type explorer struct {
 
 func (x *explorer) count(c string) {
 	x.r.Class(c)
+	x.r.Case(fmt.Sprintf("N%d/%s/%s", x.e.N, x.k.name, c))
 	x.mu.Lock()
 	x.cnt[c]++
 	x.mu.Unlock()
@@ -381,7 +382,7 @@ func (x *explorer) step(s state, evn string) (state, bool) {
 	return state{D: d2, M: nm, last: vs}, true
 }
 
-func (x *explorer) run(depth int) mc.Stats {
+func (x *explorer) initial() state {
 	gw := gov.NewWorld()
 	gw.Genesis(x.e.Vals)
 	rec := &gov.Recorder{W: gw}
@@ -389,7 +390,11 @@ func (x *explorer) run(depth int) mc.Stats {
 	if diff := gov.SelfCheck(x.e.Vals, rec.Ops); diff != "" {
 		x.r.HarnessError("map-backed world diverges from the leveldb-backed polyenv world: %s", diff)
 	}
-	init := state{D: rec.Dump(), M: model{Pending: map[uint64]bool{}, Since: map[uint64][]string{}, Applied: map[uint64]int{}}}
+	return state{D: rec.Dump(), M: model{Pending: map[uint64]bool{}, Since: map[uint64][]string{}, Applied: map[uint64]int{}}}
+}
+
+func (x *explorer) run(depth int) mc.Stats {
+	init := x.initial()
 	return mc.BFS(mc.Config[state]{
 		Init: []state{init}, Events: x.events, Step: x.step,
 		Key: func(s state) string { return s.D.String() + s.M.key() },
@@ -409,11 +414,46 @@ func (x *explorer) run(depth int) mc.Stats {
 
 func main() {
 	r := ev.Start("C33", "model_checking")
-	r.Require("effect-on-pending-request", "inverse-applied", "approval-of-consumed-request-rejected", "fresh-request-applied-by-a-full-new-round")
+	if r.ReplayPath == "" {
+		r.Require("effect-on-pending-request", "inverse-applied", "approval-of-consumed-request-rejected", "fresh-request-applied-by-a-full-new-round")
+	}
 	polyenv.InstallHeightLedger()
 	ns := []int{4}
 	if r.Thorough() {
 		ns = []int{4, 5, 6}
+	}
+	if r.ReplayPath != "" { // re-execute one recorded operation list
+		var d struct {
+			Kind string   `json:"kind"`
+			N    int      `json:"N"`
+			Ops  []string `json:"ops_after_setup"`
+		}
+		if err := r.LoadReplay(&d); err != nil {
+			r.HarnessError("replay: %v", err)
+		}
+		e := gov.NewEnv(d.N)
+		polyenv.Setup(0, e.Vals)
+		for _, k := range kinds(e) {
+			if k.name != d.Kind {
+				continue
+			}
+			x := &explorer{r: r, e: e, k: k, best: map[string]found{}, cnt: map[string]int{}}
+			s := x.initial()
+			for i, op := range d.Ops {
+				n, ok := x.step(s, op)
+				if !ok {
+					r.HarnessError("replay: op %d (%s) not applicable", i, op)
+				}
+				for _, v := range n.last {
+					v.detail["ops_after_setup"] = d.Ops[:i+1]
+					v.detail["registry_changed"] = v.stateChange
+					r.Violation(v.key, v.detail)
+				}
+				s = n
+			}
+		}
+		r.Finish(map[string]any{"rule": "replay of one recorded operation list", "states": len(d.Ops) + 1, "transitions": len(d.Ops),
+			"traces_validated_against_impl": len(d.Ops), "vacuity_guard": "off (replay)"})
 	}
 	var tot mc.Stats
 	per := map[string]any{}
